@@ -2,6 +2,8 @@
   C17 — Schema-prefixed encoding round-trips and rejects a foreign schema.
 -/
 import BorshModel.SchemaOf
+import BorshModel.Lemmas.ContainerCodec
+import BorshModel.Theorems.C01
 namespace Borsh
 
 theorem Out.bind_eq_ok' {α β : Type} {x : Out α} {f : α → Out β} {b : β}
@@ -49,6 +51,39 @@ theorem C17_mismatch_rejected (st : Bool) (u : Ty) (bs rest : Bytes) (cv x : Val
   simp only [h1, Out.bind_ok, h2, hs, Res.toOut]
   have : (containerOfVal cv == some cu) = false := by simpa using hne
   simp [this]
+
+/-- Round trip through the schema-prefixed entry points: what `try_to_vec_with_schema` writes,
+`try_from_slice_with_schema` at the same type accepts and returns the (canonical) value, in both
+key-order modes.  `hc` says the type's own container is representable on the wire (names are
+UTF-8, definitions ascending by name, widths fit their fields) — a decidable fact about `u`,
+discharged by evaluation in the example below and checked per type by the C17 workload.
+`_partial` for the same reason as C01 (`keysOk`). -/
+theorem C17_roundtrip_partial (st : Bool) (u : Ty) (v : Val) (bs : Bytes) (cu : Container)
+    (hk : keysOk u = true) (hw : WfTy u = true) (hv : HasTy u v = true)
+    (hs : schemaOf u = .ok cu) (hc : HasTy containerTy (containerToVal cu) = true)
+    (he : tryToVecWithSchema u v = .ok bs) :
+    tryFromSliceWithSchema st u bs = .ok (canon u v) := by
+  unfold tryToVecWithSchema at he
+  simp only [hs, Res.toOut, Out.bind_ok] at he
+  obtain ⟨cb, hcb, h2⟩ := Out.bind_eq_ok_iff.mp he
+  obtain ⟨vb, hvb, rfl⟩ := Out.map_eq_ok_iff.mp h2
+  unfold tryFromSliceWithSchema
+  rw [C01_roundtrip_stream_partial st containerTy (containerToVal cu) cb vb
+    keysOk_containerTy WfTy_containerTy hc hcb]
+  simp only [Out.bind_ok]
+  have h3 := C01_roundtrip_stream_partial st u v vb [] hk hw hv hvb
+  simp only [List.append_nil] at h3
+  rw [h3]
+  simp [hs, Res.toOut, canon_container cu hc, containerOfVal_toVal]
+
+/-- non-vacuity of `C17_roundtrip_partial`'s hypotheses at a nested keyed type -/
+example :
+    let u := Ty.map .hashMap (.str .string) (.seq .vec (.int .u16))
+    (keysOk u && WfTy u &&
+      (match schemaOf u with
+       | .ok cu => HasTy containerTy (containerToVal cu)
+       | _ => false)) = true := by
+  decide +kernel
 
 /-- `insertDef` places a new name in ascending byte order: the head of the result is the smaller
 of the new name and the old head -/
